@@ -114,7 +114,7 @@ THEOREMS = ["T_ActsOnPoints: Point(result, prm) = Map(Point(original, prm)) at e
 
 
 def run(ctx):
-    res = core.run_model(ctx, "MC_C10", 1800, thorough_seeds=(2, 3, 5))
+    res = core.run_model(ctx, "MC_C10", 1800, thorough_seeds=(2, 3, 5, 7))
     core.tlc_must_pass(res, "MC_C10")
     ctx.add_tlc(res, "every shape/container x map x argument x inplace flag")
     ctx.theorems = THEOREMS
